@@ -439,6 +439,38 @@ def stage_modes(ctx: Ctx, progs):
                                        'walk_gives': type(seq0[k].a).__name__ if k < len(seq0) else None})
 
 
+IHDR = ('From Coq Require Import List Bool Arith.\nFrom PF Require Import models.Interleave.\nImport ListNotations.\n'
+        'Fixpoint nl_eqb (a b : list nat) : bool := match a, b with [], [] => true | x :: a\', y :: b\' => Nat.eqb x y && nl_eqb a\' b\' | _, _ => false end.\n')
+
+
+def stage_interleave(ctx: Ctx, progs):
+    """models/Interleave.v call_children / classdef_head_children == the part of astutil.syntax_ordered_children made of args / bases and keywords, for every Call and
+    ClassDef of the programs (the zoo holds every interleaving, on one line and as staircases)"""
+    import fst
+    from fst.astutil import syntax_ordered_children
+    terms, meta = [], []
+    for src in progs:
+        root = fst.FST(src, 'exec')
+        for f in root.walk(True):
+            a = f.a
+            if not isinstance(a, (ast.Call, ast.ClassDef)):
+                continue
+            pos_l = a.args if isinstance(a, ast.Call) else a.bases
+            ids = {id(n): i + 1 for i, n in enumerate(list(pos_l) + list(a.keywords))}
+            enc = lambda l: '[' + '; '.join(f'(({n.lineno}, {n.col_offset}), {ids[id(n)]})' for n in l) + ']'
+            real = [ids[id(c)] for c in syntax_ordered_children(a) if c is not None and id(c) in ids]
+            exp = '[' + '; '.join(map(str, real)) + ']'
+            if isinstance(a, ast.Call):
+                t = f'nl_eqb (call_children 0 {enc(pos_l)} {enc(a.keywords)}) (0 :: {exp})'
+            else:
+                t = f'nl_eqb (classdef_head_children {enc(pos_l)} {enc(a.keywords)}) {exp}'
+            ctx.tick(('interleave', src, f.src[:60]), 'interleave:' + type(a).__name__)
+            terms.append(t)
+            meta.append({'src': src, 'node': f.src[:100], 'real_order': real})
+    failed = coq_eval_bools('C14_interleave', IHDR, terms, shard=300)
+    ctx.correspondence('models/Interleave.v merge by (line, column) == astutil.syntax_ordered_children on args / bases + keywords of every Call and ClassDef', len(terms), [meta[i] for i in failed])
+
+
 def run(ctx: Ctx):
     ctx.rule = ('(1) every distinct node shape (class x field occupancy) of the corpus: translated tables executed in Coq vs the real stepping functions; '
                 '(2) random (start node, all-filter, on, back, recurse) walks: stack-machine model vs real generator; (3) per corpus program the full '
@@ -458,6 +490,7 @@ def run(ctx: Ctx):
     run_guarded(ctx, stage_tables_corr, progs)
     run_guarded(ctx, stage_walk_corr, progs)
     run_guarded(ctx, stage_oracle, progs)
+    run_guarded(ctx, stage_interleave, progs)
     run_guarded(ctx, stage_modes, zoo + progs[:ctx.scale(6, 40)])
 
 
